@@ -160,7 +160,8 @@ class _Budget(BaseException):
     pass
 
 
-LINE_BUDGET = 100000
+LINE_BUDGET = 20000
+BIT_BUDGET = 10000000
 
 
 class Runner:
@@ -212,6 +213,12 @@ class Runner:
                     left[0] -= 1
                     if left[0] < 0:
                         raise _Budget()
+                    # a loop that does not end may square a number in every round: stop before the arithmetic
+                    # takes minutes (no generated original comes near this size)
+                    if left[0] % 8 == 0:
+                        for v in frame.f_locals.values():
+                            if type(v) is int and v.bit_length() > BIT_BUDGET:
+                                raise _Budget()
                 return blocal
 
             def tracer(frame, event, arg):
@@ -229,7 +236,8 @@ class Runner:
         except RecursionError:
             return ['exc', 'RecursionError', '', '', 0], lines
         except _Budget:
-            return ['exc', 'Budget', 'more than %d lines executed' % LINE_BUDGET, '', 0], lines
+            return ['exc', 'Budget', 'more than %d lines executed or an int of more than %d bits'
+                    % (LINE_BUDGET, BIT_BUDGET), '', 0], lines
         except Exception as e:
             tb = traceback.extract_tb(e.__traceback__)
             where = tb[-1].name if tb else ''
@@ -773,7 +781,12 @@ def pick_selections(rng, sels, k):
         ins = s.get('inside', [])
         if 'break' in ins or 'continue' in ins:
             # jumps inside the run: next to / behind / inside nested loops
-            w += 3.0 if 'loop' in ins else 1.5
+            w += 1.5
+            if 'loop' in ins:
+                w += 2.5
+                first_jump = min(ins.index(x) for x in ('break', 'continue') if x in ins)
+                if 'loop' in ins[:first_jump] and s['depth'] > 0:
+                    w += 3.0        # a nested block whose run has a jump behind a loop
         if 'def' in ins or 'lambda' in ins or 'class' in ins:
             w += 1.0
         if s['depth'] > 0:
@@ -824,6 +837,8 @@ def check_selection(src, entry, sel, arg_texts, old_runs, rng_extra=None):
             k = ('value',) if newo[0] == 'ok' else (newo[1], failure_name(newo)[0] or newo[2], newo[3], newo[4])
             if k not in seen and len(seen) < 6:
                 seen[k] = {'args': a, 'old_outcome': old, 'new_outcome': newo}
+            if newo[0] == 'exc' and newo[1] == 'Budget':
+                break               # a loop that does not end: one witness is enough
     if seen:
         return {'status': 'differs', 'new_code': new, 'failures': list(seen.values())}
     return {'status': 'same'}
